@@ -124,6 +124,16 @@ Theorem C29_direct_orig_duplicate_refuted :
 Proof. exact direct_duplicate_refuted. Qed.
 Print Assumptions C29_direct_orig_duplicate_refuted.
 
+(* the outcome does not depend on how the client of the streaming RPC cut the file into
+   chunks (2500 bytes as 1000+1000+500 or as the core's own 2048+452) *)
+Theorem C29_chunking_independent : forall {A} (c1 c2 : list (list A)) targets behs,
+  c1 <> [] -> c2 <> [] -> concat c1 = concat c2 ->
+  messages (send_chunks c1 targets behs) = messages (send_chunks c2 targets behs) /\
+  finished (send_chunks c1 targets behs) = finished (send_chunks c2 targets behs) /\
+  forall o, received (send_chunks c1 targets behs) o = received (send_chunks c2 targets behs) o.
+Proof. exact @chunking_independent. Qed.
+Print Assumptions C29_chunking_independent.
+
 (* several files on ONE SendLargeFile input channel (a client of the streaming RPC):
    every (distinct target, file) gets a result and every file is delivered completely
    to every engine that reads to EOF (after the repair; before it only the first file) *)
